@@ -5,10 +5,14 @@ from xlcalculator.xlfunctions import xl, func_xltypes
 from . import ast_nodes, xltypes
 
 
+class CycleError(RuntimeError):
+    """A cell depends on itself."""
+
+
 class EvaluatorContext(ast_nodes.EvalContext):
 
-    def __init__(self, evaluator, ref):
-        super().__init__(evaluator.namespace, ref)
+    def __init__(self, evaluator, ref, seen=None):
+        super().__init__(evaluator.namespace, ref, seen)
         self.evaluator = evaluator
         self._cell_values = {}
 
@@ -26,13 +30,15 @@ class EvaluatorContext(ast_nodes.EvalContext):
         if addr in self._cell_values:
             return self._cell_values[addr]
 
-        # Check for a cycle.
-        if addr in self.seen:
-            raise RuntimeError(
-                f'Cycle detected for {addr}:\n- ' + '\n- '.join(self.seen))
-        self.seen.append(addr)
+        # Check for a cycle: `seen` holds the cells whose evaluation led to
+        # this context's cell.
+        path = self.seen + [self.ref]
+        if addr in path:
+            raise CycleError(
+                f'Cycle detected for {addr}:\n- ' + '\n- '.join(path))
 
-        value = self._cell_values[addr] = self.evaluator.evaluate(addr, None)
+        value = self._cell_values[addr] = self.evaluator.evaluate(
+            addr, EvaluatorContext(self.evaluator, addr, path))
         return value
 
 
@@ -90,10 +96,14 @@ class Evaluator:
         context = context if context is not None else self._get_context(addr)
         try:
             value = cell.formula.ast.eval(context)
+        except CycleError:
+            raise
         except Exception as err:
+            # Note: Using `repr(err)` here would escape the quotes of the
+            # nested message at every level and double its size.
             raise RuntimeError(
                 f"Problem evaluating cell {addr} formula "
-                f"{cell.formula.formula}: {repr(err)}"
+                f"{cell.formula.formula}: {type(err).__name__}: {err}"
             ).with_traceback(sys.exc_info()[2])
 
         # 4. Update the cell value.
